@@ -717,6 +717,55 @@ def scaling(rep):
         raise AnalysisError(f"scaling: only {n_ok} modules typable")
 
 
+def purity_of_solutions(rep):
+    """The functions of a solution module are functions of (t, x, y, z): nothing may be
+    remembered between calls (memoising decorators, module-level tables written at call time)
+    and what they return must be theirs to give away -- a cached array handed out twice is
+    scaled twice by a caller that fills it in place (Szekeres builds on LCDM's metric that
+    way)."""
+    S = rep.sources
+    n = 0
+    for rel in S.all_py():
+        if not rel.startswith(SOL + "/") or rel.endswith("__init__.py"):
+            continue
+        tree = S.module(rel)
+        tables = {t.id for st in tree.body if isinstance(st, ast.Assign)
+                  and isinstance(st.value, (ast.Dict, ast.List, ast.Set))
+                  for t in st.targets if isinstance(t, ast.Name)}
+        for fn in [x for x in ast.walk(tree) if isinstance(x, ast.FunctionDef)]:
+            n += 1
+            key = f"{rel}::{fn.name}"
+            memo = [d for d in fn.decorator_list
+                    if any(w in unparse(d) for w in ("lru_cache", "cache", "memoize", "memoise"))]
+            glob = {g for x in ast.walk(fn) if isinstance(x, ast.Global) for g in x.names}
+            locs = {t.id for x in ast.walk(fn) if isinstance(x, ast.Assign) for t in x.targets
+                    if isinstance(t, ast.Name)} | {a.arg for a in fn.args.args}
+            stores = []
+            for x in ast.walk(fn):
+                tg = x.targets if isinstance(x, ast.Assign) else (
+                    [x.target] if isinstance(x, ast.AugAssign) else [])
+                for t in tg:
+                    root = t
+                    while isinstance(root, (ast.Subscript, ast.Attribute)):
+                        root = root.value
+                    if isinstance(root, ast.Name) and root is not t and root.id in tables \
+                            and root.id not in locs:
+                        stores.append(x)
+                    if isinstance(t, ast.Name) and t.id in glob:
+                        stores.append(x)
+            why = ""
+            if memo:
+                why = f"`{fn.name}` is memoised ({unparse(memo[0])}): the array it returns is " \
+                      "shared between calls, and callers that fill the returned metric in " \
+                      "place change what every later call gets"
+            elif stores:
+                why = f"`{fn.name}` writes module-level state at call time: " \
+                      + norm_src(stores[0])[:60]
+            rep.check(not why, "solution-purity", key, why, node=fn, file=rel)
+    if n < 60:
+        raise AnalysisError(f"solution modules: only {n} functions found")
+
+
 def run(rep):
     rep.explanation = (
         "Clause 1 of C17 (the numerical and the symbolic form of each bundled metric agree) is "
@@ -732,5 +781,6 @@ def run(rep):
     static_k(rep)
     k_from_metric(rep)
     scaling(rep)
+    purity_of_solutions(rep)
     rep.floor("two-forms-agree", 12)
     rep.floor("component-axes", 12)
